@@ -18,15 +18,21 @@ import json
 from typing import Any, Callable, Dict, Iterator, List, Optional, Sequence, Tuple
 
 RULE = (
-    "case = one gene (symbol sequence over behaviour-class representatives of the real CLASSIFICATIONS "
-    "table x KS subtypes; family 'single', optionally handed over in reverse order) or a run of 2-3 "
-    "adjacent genes with strands (family 'genes', driven exactly like generate_domains drives "
-    "combine_modules). quick: every single gene of length <= 4 over all classes, length 5 over 11 and "
-    "length 6 over 7 core classes; every gene pair of total length <= 3 over all classes on all 4 strand "
-    "combinations, total length 4 over 16 classes on the + strand. thorough: one step further in every "
-    "family, then seeded random genes (length <= 12), pairs and triples with rotated class members. "
-    "Non-trivial: single gene with >= 2 non-docking domains; gene run with equal strands somewhere and "
-    "modules on both sides of that junction. Distinct = distinct case."
+    "case = one gene (sequence of domain symbols = behaviour-class representatives of the real "
+    "CLASSIFICATIONS table x KS subtypes None/Trans-AT-KS/Iterative-KS; family 'single', optionally handed "
+    "over in reverse order) or a run of 2-3 adjacent genes with strands (family 'genes', driven exactly like "
+    "generate_domains drives combine_modules). quick, all exhaustive: single genes of length <= 3 over all 24 "
+    "symbols (length 2-3 also reversed), length 4 over 20 (dropping 4 classes that differ only in reports no "
+    "clause reads), length 5 over 9 and length 6 over 6 core symbols (A, C, Trans-AT-KS, CP, KR, TD, "
+    "LPG_synthase_C, Beta_elim_lyase, COM); gene pairs (every cut) of total length 2 over all symbols on all "
+    "4 strand combinations, total 3 over all symbols on +/+, total 3-4 over 12 merge-relevant symbols on "
+    "-/- resp. +/+, total 4 over 7 core symbols on -/-; gene triples of total length 4 over 7 core symbols "
+    "on +++ and ---. thorough: 8000 seeded random cases per shard first (genes of length 6-12, pairs, "
+    "triples, mixed strands, class members rotated), then the quick families, other class members "
+    "(rotations 1, 2) to length 3, and one step wider everywhere (single length 5 over all symbols, 6 over "
+    "11, 7 over 7; pairs total 4 over all, 5 over 12; triples total 5). Non-trivial: single gene with >= 2 "
+    "non-docking domains; gene run with a same-strand junction that has non-docking domains on both sides. "
+    "Distinct = distinct case."
 )
 EXHAUSTIVE = {"quick": True, "thorough": False}
 
@@ -297,35 +303,36 @@ def _splits(seq: Tuple[str, ...], parts: int) -> Iterator[List[List[str]]]:
 
 
 def _families(tier: str) -> List[Tuple[str, int, List[str]]]:
-    """(kind, length, alphabet) of every exhaustively enumerated family of the tier"""
+    """(kind, length, alphabet) of every exhaustively enumerated family of the tier;
+    thorough = the quick families followed by the wider ones (so a truncated run loses the widest first)"""
     syms = symbols()
     core16, core11, core7 = _pick(syms, CORE16), _pick(syms, CORE11), _pick(syms, CORE7)
     core9, pair12 = _pick(syms, CORE9), _pick(syms, PAIR12)
     dropped = _pick(syms, LEN4_DROPPED)
     most = [sym for sym in syms if sym not in dropped]
-    core12, core8, core6 = _pick(syms, CORE12), _pick(syms, CORE8), _pick(syms, CORE6)
+    core12, core6 = _pick(syms, CORE12), _pick(syms, CORE6)
     fams: List[Tuple[str, int, List[str]]] = []
-    full_len = 3 if tier == "quick" else 5
-    for length in range(1, full_len + 1):
+    for length in (1, 2, 3):
         fams.append(("single", length, syms))
-    if tier == "quick":
-        fams.append(("single", 4, most))
+    fams.append(("single", 4, most))
     for length in (2, 3):
         fams.append(("single-rev", length, syms))
-    if tier == "quick":
-        fams += [("single", 5, core9), ("single", 6, core6)]
-    else:
-        fams += [("single", 6, core12), ("single", 7, core8), ("single", 8, core6)]
+    fams += [("single", 5, core9), ("single", 6, core6)]
     fams.append(("pair-all-strands", 2, syms))
+    fams += [("pair-plus", 3, syms), ("pair-minus", 3, pair12), ("pair-plus", 4, pair12)]
+    fams.append(("pair-minus", 4, core7))
+    fams.append(("triple", 4, core7))
     if tier == "quick":
-        fams += [("pair-plus", 3, syms), ("pair-minus", 3, pair12), ("pair-plus", 4, pair12)]
-    else:
-        fams += [("pair-same-strand", 3, syms), ("pair-all-strands", 3, core16), ("pair-plus", 4, syms), ("pair-plus", 5, core12)]
-    small = core7 if tier == "quick" else core11
-    fams.append(("pair-minus", 4, small))
-    fams.append(("triple", 4, small))
-    if tier != "quick":
-        fams.append(("triple", 5, core7))
+        return fams
+    for rotation in (1, 2):
+        rotated = symbols(rotation)
+        for length in (1, 2, 3):
+            fams.append(("single", length, rotated))
+        fams.append(("pair-plus", 3, rotated))
+    fams += [("single", 4, syms), ("pair-same-strand", 3, syms), ("pair-all-strands", 3, core16),
+             ("pair-minus", 4, core11), ("triple", 4, core11), ("triple", 5, core7),
+             ("single", 6, core11), ("single", 7, core7), ("pair-plus", 4, syms), ("pair-plus", 5, core12),
+             ("single", 5, syms)]
     return fams
 
 
@@ -653,20 +660,21 @@ def shards(tier: str, seed: int) -> list:
     return [{"tier": tier, "k": k, "n": N_SHARDS} for k in range(N_SHARDS)]
 
 
+RANDOM_PER_SHARD = 8000
+
+
 def run_shard(shard, run) -> None:
     tier, k, n = shard["tier"], shard["k"], shard["n"]
+    if tier != "quick":
+        # the seeded part first: it must not be the victim of a truncated exhaustive part
+        for count in range(RANDOM_PER_SHARD):
+            if count % 256 == 0 and run.out_of_time():
+                return
+            _report(random_case(run.rng, run.rng.randrange(8)), run)
     for index, case in enumerate(exhaustive_cases(tier, k, n)):
         if index % 512 == 0 and run.out_of_time():
             return
         _report(case, run)
-    if tier == "quick":
-        return
-    count = 0
-    while count < 60000:
-        if count % 256 == 0 and run.out_of_time():
-            break
-        _report(random_case(run.rng, run.rng.randrange(8)), run)
-        count += 1
 
 
 def replay(case) -> list:
